@@ -40,6 +40,7 @@
      job_evaluate e st id           Job.evaluate(heap[id])
      evaluate_serial e st batch     Evaluator.evaluate_serial = Algorithm.evaluate for max_processes <= 1;
                                     stops at the first design whose job raises
+     evaluate_history e st batches  repeated Algorithm.evaluate calls (the caller catches exceptions and goes on)
      evaluate_scalar e st x         Evaluator.evaluate_scalar(x) (what ScipyOpt / NLopt call)
      sweep e st vectors             SweepAlgorithm.run with generator.generate() = vectors
      signed_costs signs costs feas  Individual.calc_signed_costs
@@ -212,15 +213,14 @@ Section Job.
         end
     end.
 
-  (* repeated Algorithm.evaluate calls; stops at the first one that raises *)
-  Fixpoint evaluate_history (e : env) (st : state) (batches : list (list nat)) : state * result :=
+  (* repeated Algorithm.evaluate calls by a caller that catches what they raise *)
+  Fixpoint evaluate_history (e : env) (st : state) (batches : list (list nat)) : state * list result :=
     match batches with
-    | [] => (st, Done)
+    | [] => (st, [])
     | b :: rest =>
-        match evaluate_serial e st b with
-        | (st', Done) => evaluate_history e st' rest
-        | (st', r) => (st', r)
-        end
+        let '(st', r) := evaluate_serial e st b in
+        let '(st'', rs) := evaluate_history e st' rest in
+        (st'', r :: rs)
     end.
 
   (* a new Individual object; its id is the next heap position *)
